@@ -67,6 +67,7 @@ def gen_descs(g, tier):
                             Rf = g.choice([1, R1]); Ru = R1
                         out.append(dict(scn="binop", kind=kind, op=op, upd=upd, cached=cached,
                                         u=C.gen_measure(g, Ru, D, diag=(g.randint(0, 3) == 0)), f=C.gen_factor(g, kind, Rf, D), xs=g.mat(3, D)))
+                        C.neg_weights(g, out[-1]["u"], out[-1]["f"])
         out.append(dict(scn="fproduct", f=C.gen_factor(g, kind, g.randint(1, 3), g.randint(1, 3)), xs=None))
         out[-1]["xs"] = g.mat(3, out[-1]["f"]["D"])
     # diagonal densities in high dimension (determinant outside the float range)
